@@ -245,7 +245,7 @@ def run(ctx):
     owners = {}
     for c, o in zip(cases, obs):
         e = c["exp"]
-        ctx.count([describe(c)], nontrivial=e["nconn"] > 0)
+        ctx.count([describe(c), c["fault"]], nontrivial=e["nconn"] > 0)
         if e["fault"] != "-":
             owners[e["owner_at_fault"]] = owners.get(e["owner_at_fault"], 0) + 1
         judge_fault(ctx, c, o, drift, ids)
